@@ -976,6 +976,8 @@ def verify_derivation(obs, world, cname, dname, contract, pid, timeout=20000, it
                     emit("C10", f"fresh/{fname}", [z3.Not(body)], f"result shares a mutable object with its source ({fname})", skolems=vs)
             if "source" in want and contract.source_untouched:
                 emit(pid if pid != "C10" else "C10", "source-untouched", [z3.Not(unchanged(h0, h1, g0, g1))], "the derivation modified its source")
+                for j_, other in enumerate(getattr(contract, "other_sources", lambda: [])()):
+                    emit(pid, f"source-untouched/argument-{j_ + 2}", [z3.Not(unchanged(h0, h1, other, other, tag=f"u{j_}"))], "the derivation modified one of its argument graphs")
         flush(obs, pending, pre, instances, base, i, kind, p, sym_flat, raised, timeout)
 
 
@@ -986,8 +988,9 @@ import ast as _ast
 class LoopCtx:
     def __init__(self, interp, fr, g, h_entry, C):
         self.interp, self.fr, self.g, self.h_entry, self.C = interp, fr, g, h_entry, C
-        self.g_entry = Obj(g.cls, dict(g.fields))
-        self.v_entry = GM.View(h_entry, self.g_entry)
+        # `self` of the method at loop entry (None inside a classmethod such as compose)
+        self.g_entry = Obj(g.cls, dict(g.fields)) if isinstance(g, Obj) and "_atom_attrs" in g.fields else None
+        self.v_entry = GM.View(h_entry, self.g_entry) if self.g_entry is not None else None
 
     def view(self):
         return GM.View(heap_of(self.interp).snapshot(), Obj(self.g.cls, dict(self.g.fields)))
